@@ -251,7 +251,7 @@ def check_cell(ctx, spec, only_decoder=None):
                 sub = rng.choice(len(msgs), size=min(len(msgs), 60 if dname != "bm" else 24), replace=False)
                 run_words(ctx, dec, {**cell, "layout": "1d"}, spec, dname, msgs[sub], errs[sub], cbook, n, k, clause, "1d")
                 run_words(ctx, dec, {**cell, "layout": "small"}, spec, dname, msgs[sub], errs[sub], cbook, n, k, clause, "small")
-                for dt in ("int32", "int64"):
+                for dt in ("int32", "int64", "uint8", "int8"):
                     run_words(ctx, dec, {**cell, "dtype": dt}, spec, dname, msgs[sub], errs[sub], cbook, n, k, clause, "batch", dtype=dt)
             else:
                 # large k: codewords computed on the fly
